@@ -144,6 +144,7 @@ func (r *LogoutRequest) UnmarshalXML(d *xml.Decoder, start xml.StartElement) err
 func (r *LogoutRequest) Bytes() ([]byte, error) {
 	doc := etree.NewDocument()
 	doc.SetRoot(r.Element())
+	doc.WriteSettings = xmlWriteSettings
 
 	buf, err := doc.WriteToBytes()
 	if err != nil {
